@@ -23,6 +23,7 @@ from .tokens.operand import Operand
 from .functions import wrap_ranges_func, COMPILING
 from .ranges import Ranges
 from schedula.utils.utl import get_unused_node_id
+from . import _verif
 
 
 @functools.lru_cache(None)
@@ -54,6 +55,10 @@ class AstBuilder:
         return self._deque.pop()
 
     def append(self, token):
+        if _verif.ON: _verif.emit(
+            'rpn', cls=type(token).__name__, name=token.name,
+            n_args=token.attr.get('n_args')
+        )
         if isinstance(token, (Operator, Function)):
             try:
                 tokens = [self.pop() for _ in range(token.get_n_args)][::-1]
